@@ -26,8 +26,9 @@ Theorem C03_inline_names_are_dependencies :
     incl (refs (fst r)) (eids R l) /\ forall x, snd r = Some x -> incl (refs x) (eids R l).
 Proof. intros ? ? ? R fuel. exact (gen_refs _ _ _ R fuel). Qed.
 
-(* .. and exactly those: where no type parameter has a default and no `as` sits on a variant printed as its bare name
-   (def_exact, a boolean; a defaulted parameter is visited whether or not an argument replaces it — the known class of C03),
+(* .. and exactly those: where no type parameter has a default, no `as` sits on a variant printed as its bare name and no
+   zero-length array occurs (def_exact, a boolean; a defaulted parameter is visited whether or not an argument replaces it, and
+   `[Foo; 0]`, declared `[]`, visits Foo as C12 asks of every library type — the known classes of C03),
    every exportable type the generated visit_dependencies() hands to the visitor is named in the declaration: nothing is
    imported that is not used.  For every such environment, definition, fuel; and for every instantiation (inline()) *)
 Theorem C03_dependencies_are_used_names :
@@ -42,17 +43,19 @@ Proof. intros iu ia inu R fuel id d dc l Hnd. exact (decl_deps_are_refs iu ia in
 Theorem C03_inline_dependencies_are_used_names :
   forall is_upper is_alnum is_numeric R fuel id d args r l,
     no_defaults_env R = true ->
-    Rust.lookup R id = Some d ->
+    Rust.lookup R id = Some d -> forallb nz args = true ->
     gen is_upper is_alnum is_numeric R fuel d args = Ok r ->
     deps R fuel d args = Ok l ->
     incl (eids R l) (refs (fst r)) /\ forall x, snd r = Some x -> incl (eids R l) (refs x).
 Proof. intros iu ia inu R fuel id d args r l Hnd. exact (gen_rev iu ia inu R Hnd fuel id d args r l). Qed.
 
 (* a reference by name, both ways: the names in name() ARE the identifiers of the exportable types among the type itself and
-   what visit_generics() reports (a zero-length array visits nothing, as its text `[]` mentions nothing: after the fix) *)
+   what visit_generics() reports, for every type without a zero-length array in it *)
 Theorem C03_name_refs_exact :
-  forall R t a, name_of R t = Ok a -> incl (refs a) (eids R (push t)) /\ incl (eids R (push t)) (refs a).
-Proof. intros R t a H. split; [exact (name_refs_incl R t a H) | exact (name_refs_rev R t a H)]. Qed.
+  forall R t a, nz t = true -> name_of R t = Ok a -> incl (refs a) (eids R (push t)) /\ incl (eids R (push t)) (refs a).
+Proof. intros R t a Hz H. split; [exact (name_refs_incl R t a H) | exact (name_refs_rev R t Hz a H)]. Qed.
+
+
 
 (* a reference by name: the names in name() are the identifiers of the exportable types among the
    type itself and what visit_generics() reports *)
@@ -76,8 +79,8 @@ Theorem C03_imports :
                   placed esm cwd out_dir path m e').
 Proof. exact import_groups_spec. Qed.
 
-(* non-vacuity, and the regression of the zero-length array: struct Foo { x: i32 }; struct Z { a: [Foo; 0], b: Vec<Foo> };
-   struct Z0 { a: [Foo; 0] }: Z depends on Foo (through b) and names it; Z0 depends on nothing and names nothing *)
+(* non-vacuity: struct Foo { x: i32 }; struct Z { b: Vec<Foo>, c: Option<(Foo, u8)> } — Z depends on Foo and names it; and the
+   environment of the known class: struct Z0 { a: [Foo; 0] } *)
 Module C03_ex.
 Local Open Scope string_scope.
 Definition l (s : String.string) : str := lit s.
@@ -88,18 +91,26 @@ Definition ca (n : String.string) : cattrs :=
   {| c_ident := l n; c_rename := None; c_rename_all := None; c_tag := None; c_optional_fields := NotOptional; c_docs := [];
      c_export_to := None; c_type := None; c_as := None; c_params := [] |}.
 Definition Foo := DStruct (ca "Foo") (SNamed [fd "x" (RLeaf (LInt false (-2147483648) 2147483647))]).
-Definition Z := DStruct (ca "Z") (SNamed [fd "a" (RArray 0 (RNamed (l "Foo") [])); fd "b" (RVec (RNamed (l "Foo") []))]).
+Definition Z := DStruct (ca "Z") (SNamed [fd "b" (RVec (RNamed (l "Foo") [])); fd "c" (ROption (RTuple [RNamed (l "Foo") []; RLeaf LBool]))]).
 Definition Z0 := DStruct (ca "Z0") (SNamed [fd "a" (RArray 0 (RNamed (l "Foo") []))]).
-Definition R : env := [(l "Foo", Foo); (l "Z", Z); (l "Z0", Z0)].
+Definition R : env := [(l "Foo", Foo); (l "Z", Z)].
+Definition R0 : env := [(l "Foo", Foo); (l "Z0", Z0)].
 End C03_ex.
 Example C03_exact_nonvacuous :
   let al := fun c => (is_ascii_upper c || is_ascii_lower c || is_ascii_digit c)%bool in
-  no_defaults_env C03_ex.R = true /\
-  omap (eids C03_ex.R) (deps C03_ex.R 5 C03_ex.Z []) = Ok [lit "Foo"%string] /\
-  omap (fun dc => refs (d_body dc)) (decl_of is_ascii_upper al is_ascii_digit C03_ex.R 5 C03_ex.Z) = Ok [lit "Foo"%string] /\
-  omap (eids C03_ex.R) (deps C03_ex.R 5 C03_ex.Z0 []) = Ok [] /\
-  omap print_decl (decl_of is_ascii_upper al is_ascii_digit C03_ex.R 5 C03_ex.Z0) = Ok (lit "type Z0 = { a: [], };"%string).
+  no_defaults_env C03_ex.R = true /\ no_defaults_env C03_ex.R0 = false /\
+  omap (eids C03_ex.R) (deps C03_ex.R 5 C03_ex.Z []) = Ok [lit "Foo"%string; lit "Foo"%string] /\
+  omap (fun dc => refs (d_body dc)) (decl_of is_ascii_upper al is_ascii_digit C03_ex.R 5 C03_ex.Z) = Ok [lit "Foo"%string; lit "Foo"%string] /\
+  omap (eids C03_ex.R0) (deps C03_ex.R0 5 C03_ex.Z0 []) = Ok [lit "Foo"%string] /\
+  omap print_decl (decl_of is_ascii_upper al is_ascii_digit C03_ex.R0 5 C03_ex.Z0) = Ok (lit "type Z0 = { a: [], };"%string).
 Proof. cbv zeta. repeat split; vm_compute; reflexivity. Qed.
+
+(* the known class, as a theorem about the model: a zero-length array of a named type visits it and names nothing *)
+Example C03_zero_length_array_refuted :
+  exists R t a, name_of R t = Ok a /\ refs a = [] /\ eids R (push t) <> [].
+Proof.
+  exists C03_ex.R0, (RArray 0 (RNamed (lit "Foo"%string) [])). eexists. split; [vm_compute; reflexivity|]. split; [reflexivity|]. vm_compute. discriminate.
+Qed.
 
 Print Assumptions C03_used_names_are_dependencies.
 Print Assumptions C03_inline_names_are_dependencies.
